@@ -61,8 +61,7 @@ class _TRSTractList:
             into.extend(iterable)
             return into
         for elem in iterable:
-            if isinstance(elem, cls._ok_individuals):
-                into.append(cls._verify_individual(elem))
+            into.append(cls._verify_individual(elem))
         return into
 
     @classmethod
@@ -79,8 +78,7 @@ class _TRSTractList:
         return obj
 
     def __setitem__(self, index, value):
-        self._verify_individual(value)
-        self._elements[index] = value
+        self._elements[index] = self._verify_individual(value)
 
     def __getitem__(self, item):
         return self._elements[item]
